@@ -75,3 +75,25 @@ Proof.
   injection Hread as <- <-. split; [exact Hback|].
   intros Q. rewrite Hprint, Ht. unfold shm_out_header, pl_write. now rewrite Q, Hopb.
 Qed.
+
+(* in particular the file that leaves the pipe is satisfiable exactly when the family model is *)
+Lemma chain_equisatisfiable argv text rep env sargv o oracle dest t :
+  cnfgen_main argv = POut text -> pl_opb_of argv = false ->
+  shm_parse_args env sargv = PaOk o -> so_input o = None ->
+  cnfshuffle_main_gen rep env sargv text oracle = ShmOut dest t ->
+  exists n F, pl_formula argv = FrOk n F /\
+    (printable n -> printable (len F) ->
+     exists out, (forall u, parse_dimacs u t = DOk n out) /\
+                 ((exists a, cnf_sat a out = true) <-> (exists a, cnf_sat a F = true))).
+Proof.
+  intros Hm Hopb Hp Hin Hs.
+  destruct (chain_is_renaming argv text rep env sargv o oracle dest t Hm Hopb Hp Hin Hs) as (n & F & Hf & _ & HRF & R).
+  exists n, F. split; [exact Hf|]. intros P1 P2.
+  destruct (R P1 P2) as (out & flips & perm & cperm & Hb & _ & _ & _ & R'). cbv zeta in R'.
+  destruct R' as (S1 & S2 & I1 & I2 & _ & _ & _ & Sat & _).
+  exists out. split; [exact Hb|]. split.
+  - intros (a & Ha). exists (pull (subst_lit flips perm) a). now rewrite <- Sat.
+  - intros (a & Ha). exists (pull (inv_lit flips perm) a). rewrite Sat.
+    rewrite (cnf_sat_ext_range n F _ a HRF); [exact Ha|].
+    intros v Hv. exact (pull_inverse a (inv_lit flips perm) (subst_lit flips perm) n v S2 S1 I1 Hv).
+Qed.
